@@ -82,18 +82,141 @@ bb_op(int argc, char **argv)
     }
 }
 
+/* ---- ring buffer ---------------------------------------------------- */
+
+#include <assert.h>
+#include <ufw/octet-ring.h>
+
+RING_BUFFER_API(ring16, uint16_t)
+RING_BUFFER_ITER_API(ring16, uint16_t)
+RING_BUFFER(ring16, uint16_t)
+RING_BUFFER_ITER(ring16, uint16_t)
+RING_BUFFER_API(ring32, uint32_t)
+RING_BUFFER_ITER_API(ring32, uint32_t)
+RING_BUFFER(ring32, uint32_t)
+RING_BUFFER_ITER(ring32, uint32_t)
+RING_BUFFER_API(ring8, uint8_t)
+RING_BUFFER_ITER_API(ring8, uint8_t)
+RING_BUFFER(ring8, uint8_t)
+RING_BUFFER_ITER(ring8, uint8_t)
+
+static int rbtype;            /* 0 octet_ring, 1 ring8, 2 ring16, 3 ring32 */
+static void *rbdata;          /* exact-size heap block */
+static octet_ring r0; static ring8 r1; static ring16 r2; static ring32 r3;
+
+#define RB_DISPATCH(EXPR0, EXPR1, EXPR2, EXPR3) \
+    (rbtype == 0 ? (EXPR0) : rbtype == 1 ? (EXPR1) : rbtype == 2 ? (EXPR2) : (EXPR3))
+
+static void
+rb_iterate(rb_iter_mode mode)
+{
+    rb_iter it;
+    size_t n = 0;
+    switch (rbtype) {
+    case 0: octet_ring_iter(&it, &r0, mode); break;
+    case 1: ring8_iter(&it, &r1, mode); break;
+    case 2: ring16_iter(&it, &r2, mode); break;
+    default: ring32_iter(&it, &r3, mode); break;
+    }
+    for (; !rb_iter_done(&it); rb_iter_advance(&it)) {
+        unsigned long v = RB_DISPATCH(octet_ring_inspect(&r0, &it), ring8_inspect(&r1, &it),
+                                      ring16_inspect(&r2, &it), ring32_inspect(&r3, &it));
+        printf("%s%lu", n ? "," : "", v);
+        if (++n > 100000) { printf(",runaway"); break; }
+    }
+    if (n == 0) putchar('-');
+}
+
+static void
+rb_view1(const char *ret)
+{
+    size_t size = RB_DISPATCH(octet_ring_size(&r0), ring8_size(&r1), ring16_size(&r2), ring32_size(&r3));
+    bool empty = RB_DISPATCH(octet_ring_empty(&r0), ring8_empty(&r1), ring16_empty(&r2), ring32_empty(&r3));
+    bool full = RB_DISPATCH(octet_ring_full(&r0), ring8_full(&r1), ring16_full(&r2), ring32_full(&r3));
+    printf("%s size=%zu empty=%s full=%s o2n=", ret, size, empty ? "true" : "false", full ? "true" : "false");
+    rb_iterate(RING_BUFFER_ITER_OLD_TO_NEW);
+    printf(" n2o=");
+    rb_iterate(RING_BUFFER_ITER_NEW_TO_OLD);
+}
+
+static void
+rb_view(const char *ret)
+{
+    rb_view1(ret);
+    printf(" ## ");
+    rb_view1(ret);
+}
+
+static void
+rb_op(int argc, char **argv)
+{
+    const char *op = argv[0];
+    char ret[40] = "ok";
+    if (strcmp(op, "rb.init") == 0 && argc == 3) {
+        size_t cap = parse_u64(argv[2]);
+        const char *t = argv[1];
+        rbtype = strcmp(t, "o8") == 0 ? 0 : strcmp(t, "u8") == 0 ? 1 : strcmp(t, "u16") == 0 ? 2 : 3;
+        size_t es = rbtype <= 1 ? 1 : rbtype == 2 ? 2 : 4;
+        free(rbdata);
+        rbdata = malloc(cap * es);
+        memset(rbdata, 0xee, cap * es);
+        switch (rbtype) {
+        case 0: octet_ring_init(&r0, rbdata, cap); break;
+        case 1: ring8_init(&r1, rbdata, cap); break;
+        case 2: ring16_init(&r2, rbdata, cap); break;
+        default: ring32_init(&r3, rbdata, cap); break;
+        }
+    } else if (rbdata == NULL) {
+        printf("bad-op");
+        return;
+    } else if (strcmp(op, "rb.put") == 0 && argc == 2) {
+        unsigned long v = parse_u64(argv[1]);
+        switch (rbtype) {
+        case 0: octet_ring_put(&r0, v); break;
+        case 1: ring8_put(&r1, v); break;
+        case 2: ring16_put(&r2, v); break;
+        default: ring32_put(&r3, v); break;
+        }
+    } else if (strcmp(op, "rb.get") == 0) {
+        unsigned long v = RB_DISPATCH(octet_ring_get(&r0), ring8_get(&r1), ring16_get(&r2), ring32_get(&r3));
+        snprintf(ret, sizeof ret, "val:%lu", v);
+    } else if (strcmp(op, "rb.clear") == 0) {
+        switch (rbtype) {
+        case 0: octet_ring_clear(&r0); break;
+        case 1: ring8_clear(&r1); break;
+        case 2: ring16_clear(&r2); break;
+        default: ring32_clear(&r3); break;
+        }
+    } else if (strcmp(op, "rb.ovr") == 0 && argc == 2) {
+        bool b = argv[1][0] == '1';
+        switch (rbtype) {
+        case 0: octet_ring_override_if_full(&r0, b); break;
+        case 1: ring8_override_if_full(&r1, b); break;
+        case 2: ring16_override_if_full(&r2, b); break;
+        default: ring32_override_if_full(&r3, b); break;
+        }
+    } else {
+        printf("bad-op");
+        return;
+    }
+    rb_view(ret);
+}
+
 static void
 harness_reset(void)
 {
     free(bbmem);
     bbmem = NULL;
     byte_buffer_null(&bb);
+    free(rbdata);
+    rbdata = NULL;
 }
 
 static void
 harness_op(int argc, char **argv)
 {
     if (strncmp(argv[0], "bb.", 3) == 0) bb_op(argc, argv);
+    else if (strncmp(argv[0], "rb.", 3) == 0) rb_op(argc, argv);
     else printf("bad-op");
 }
 
